@@ -293,6 +293,12 @@ Theorem C14_spec_holds_on_all_histories : forall ops s,
 Proof. exact all_steps_spec. Qed.
 Print Assumptions C14_spec_holds_on_all_histories.
 
+(** F — tie: the source of /repo has, right now, every comparison (and its direction), guard and
+    statement order the model hard-codes (25 items extracted by the translator on every run) *)
+Theorem C14_model_follows_code_shape : ocsp_code_shape = true.
+Proof. exact code_shape. Qed.
+Print Assumptions C14_model_follows_code_shape.
+
 (** ** Non-vacuity: the hypotheses are met by concrete, non-trivial states *)
 
 Definition xr (st : status) (ser th nx : Z) : resp := Resp st ser th nx None true.
